@@ -78,6 +78,26 @@ def build(rng, quick):
     return c, opts, kind, front
 
 
+def build_lead_in_match(rng, double):
+    """always present: a matched stretch on unreferenced lead-in fibre UPSTREAM of the first reference section, its partner inside
+    a reference section (and, mirrored, one downstream of the last reference section)"""
+    a0 = rng.randint(5, 8)
+    nx = a0 + rng.randint(16, 22)
+    w = rng.randint(1, 2)
+    ref_blocks = [(a0, a0 + 3, 0), (a0 + 6, a0 + 9, 1)]
+    match_blocks = [((1, 1 + w), (a0 + 1, a0 + 1 + w))]
+    if rng.random() < 0.5:
+        match_blocks.append(((a0 + 6, a0 + 6 + w), (nx - 3 - w, nx - 3)))
+    layout = dict(ref_blocks=ref_blocks, match_blocks=match_blocks, trans_idx=[])
+    c = fibre.make_case(rng, double=double, nx=nx, nt=rng.randint(1, 4), span=rng.choice([20.0, 100.0, 500.0]), noise=0.0,
+                        var_kind=rng.choice(["float", "array", "callable"]), layout=layout, irregular=rng.random() < 0.3)
+    opts = {}
+    kind = rng.choice(["free", "fix_gamma"])
+    if kind == "fix_gamma":
+        opts["fix_gamma"] = (float(c.truth["gamma"]), 0.0)
+    return c, opts, kind + ":lead-in-match", True
+
+
 def run_one(ctx, c, opts, kind, front):
     desc = calib.case_desc(c, opts)
     out, _ = calib.run_real(c, **opts)
@@ -121,6 +141,8 @@ def run_one(ctx, c, opts, kind, front):
 
 def batch(ctx, n):
     done = tries = 0
+    for double in (True, False):
+        run_one(ctx, *build_lead_in_match(ctx.rng, double))
     while done < n and tries < 20 * n:
         tries += 1
         b = build(ctx.rng, ctx.quick)
